@@ -36,6 +36,9 @@ func (o *Obl) smt(extraGet []string) string {
 			if t.Op == "var" && strings.Contains(t.Name, "$") {
 				pb[t.Name] = true
 			}
+			if t.Op == "var" {
+				sy.noteSort(t.S)
+			}
 			for _, a := range t.Args {
 				mark(a)
 			}
